@@ -146,3 +146,5 @@ def huge_jobs(tier, cores):
 
 for _p in ("C03", "C04", "C11"):
     PLANS[_p]["jobs"] = multi(PLANS[_p]["jobs"], huge_jobs)
+
+PLANS["C02"]["jobs"] = multi(PLANS["C02"]["jobs"], seq_plan((1500, 0), (60000, 0)))
